@@ -632,7 +632,7 @@ static void run_c10() {
         {{'c', "x"}, {'s', "xqq"}, {'c', ";"}},
         {{'c', "q"}, {'s', "q\nq;"}, {'c', ";"}},
     };
-    std::vector<std::string> inputs; gen_inputs(std::string("xq; \t\r\n\x80"), cfg.maxlen, inputs);   // 0x80: a UTF-8 continuation byte is one column like every other byte
+    std::vector<std::string> inputs; gen_inputs(std::string("xq; \t\r\n\x80\v\f"), cfg.maxlen, inputs);   // 0x80: a UTF-8 continuation byte is one column like every other byte
     long idx = 0;
     for (auto& ts : sets) for (int gk = 0; gk < 2; ++gk) {
         if ((idx++ % cfg.nshards) != cfg.shard) continue;
